@@ -155,7 +155,7 @@ CHECKS += [
 
 CHECKS += [
     dict(property_id="C20", category="exploration",
-         text="Three generated checks on the real daemons. (1) Inputs: after convergence, a generated sequence of loop bodies (manager iteration, health report, recovery check, lag check) interleaved with coordination-tree edits reachable through the CLI or external tools (host unregistered incl. the recorded or dead master, ghost hosts, stream_from dangling/self/removed, health records deleted or stale, active_nodes with unregistered names/empty/removed, recovery and optimisation entries for unregistered hosts, master key dangling/cascade/removed, switch requests naming unregistered hosts, maintenance) and faults (failing, hanging, cut statements; mysqld crashes; ZooKeeper outages; time jumps); oracle: no loop body panics (the harness recovers what would terminate the daemon); findings are identified by the two innermost daemon functions. (2) Leak: a fixed situation held for 60 rounds of every loop of every process; open connections at the fake servers and goroutines sampled after 20/40/60 rounds must not keep growing. (3) Race: a child process built with -race runs the four loops of every process concurrently in real time on 4 threads under generated workloads; oracle: the race detector's reports (harness-only reports are inconclusive). (4) the histories of other properties (maintenance windows of C09, the recovery-check product and histories of C11, the request histories of C06) are re-run with 'a daemon panic is the violation' - two further panic sites were found that way. Fourteen defects were repaired by fix: commits; one concurrency root cause (host registry refreshed under a running manager iteration) is recorded as a known finding. The inputs unit writes a flight script before every loop body: a worker process killed by a panic in a goroutine the daemon spawned is reported as a violation with that script as replay.",
+         text="Three generated checks on the real daemons. (1) Inputs: after convergence, a generated sequence of loop bodies (manager iteration, health report, recovery check, lag check) interleaved with coordination-tree edits reachable through the CLI or external tools (host unregistered incl. the recorded or dead master, ghost hosts, stream_from dangling/self/removed, health records deleted or stale, active_nodes with unregistered names/empty/removed, recovery and optimisation entries for unregistered hosts, master key dangling/cascade/removed, switch requests naming unregistered hosts, maintenance) and faults (failing, hanging, cut statements; mysqld crashes; ZooKeeper outages; time jumps); oracle: no loop body panics (the harness recovers what would terminate the daemon); findings are identified by the two innermost daemon functions. (2) Leak: a fixed situation held for 60 rounds of every loop of every process; open connections at the fake servers and goroutines sampled after 20/40/60 rounds must not keep growing. (3) Race: a child process built with -race runs the four loops of every process concurrently in real time on 4 threads under generated workloads; oracle: the race detector's reports (harness-only reports are inconclusive). (4) the histories of other properties (maintenance windows of C09, the recovery-check product and histories of C11, the request histories of C06) are re-run with 'a daemon panic is the violation' - two further panic sites were found that way. Fifteen defects were repaired by fix: commits; one concurrency root cause (host registry refreshed under a running manager iteration) is recorded as a known finding. The inputs unit writes a flight script before every loop body: a worker process killed by a panic in a goroutine the daemon spawned is reported as a violation with that script as replay.",
          design_ref="DESIGN.md section 4, C20",
          note="Trusted: a panic recovered around a loop body is what would terminate the daemon; 'corrupts its own state' is judged only through the other properties' oracles running on the same simulation. The race check sees the interleavings the scheduler produced; a race report found by the search is reported even when a re-run does not show it again.",
          technique="property-based testing / fuzzing of coordination-tree contents and fault schedules with a crash oracle, long-run resource sampling, and randomised concurrent workloads under the Go race detector"),
